@@ -77,10 +77,14 @@ def _routing_objs(routing, as_string=False):
 # real code
 # ---------------------------------------------------------------------------------------
 
-def real_bridge(routing, hdr, seq, payload, as_string=False):
+def real_bridge(routing, hdr, seq, payload, as_string=False, nth=0):
+    """encode through one Target object; `nth` earlier requests went through the same object before
+    (a Target is set up once and used for every request of a connection)"""
     from pyipmi.interfaces.ipmb import encode_bridged_message
     try:
         t = _routing_objs(routing, as_string)
+        for k in range(nth):
+            encode_bridged_message(t.routing, _mk_header(hdr), b'\x00' * (k % 3), (seq + 64 - nth + k) % 64)
         h = _mk_header(hdr)
         out = bytes(bytearray(encode_bridged_message(t.routing, h, payload, seq)))
         return 'ok ' + lean.hexs(out)
@@ -200,10 +204,10 @@ def wrap_line(innermost, layers):
 HOP_FIELDS = ('bridge', 'source', 'channel', 'tracking', 'seq')
 
 
-def judge_bridge(ctx, drv, routing, hdr, seq, payload, model=None, as_string=False):
+def judge_bridge(ctx, drv, routing, hdr, seq, payload, model=None, as_string=False, nth=0):
     case = {'op': 'bridge', 'routing': [list(r) for r in routing], 'hdr': list(hdr), 'seq': seq,
-            'data': lean.hexs(payload), 'as_string': as_string}
-    real = real_bridge(routing, hdr, seq, payload, as_string)
+            'data': lean.hexs(payload), 'as_string': as_string, 'nth': nth}
+    real = real_bridge(routing, hdr, seq, payload, as_string, nth)
     if model is not None and model != real:
         ctx.disagree('encode_bridged_message', case, model, real)
     if not real.startswith('ok '):
@@ -372,6 +376,12 @@ def _run_encode(ctx, drv, rng, depths, per_depth):
         for _, _, ch in routing[:-1]:
             ctx.count('encode:channel-%s' % ('0' if ch == 0 else '15' if ch == 15 else '1-14'))
         judge_bridge(ctx, drv, routing, hdr, seq, payload, m, as_string)
+        if len(routing) >= 2 and (len(cases) < 40 or hash((seq, len(payload))) % 3 == 0):
+            # the same request as the 2nd / 3rd one through the same Target object: same bytes demanded
+            for nth in (1, 2):
+                ctx.case(('brg-nth', nth, tuple(routing), hdr, seq, payload))
+                ctx.count('encode:request-%d-through-same-target' % (nth + 1))
+                judge_bridge(ctx, drv, routing, hdr, seq, payload, m, as_string, nth)
     ctx.sample({'op': 'bridge', 'routing': cases[2][0], 'hdr': list(cases[2][1]), 'seq': cases[2][2],
                 'data': lean.hexs(cases[2][3]), 'model': models[2]})
     # encode_send_message on its own: tracking values and channel masking (tie only beyond the property's range)
@@ -511,11 +521,14 @@ def replay(ctx, v):
         hdr, seq, payload = tuple(case['hdr']), case['seq'], lean.unhex(case['data'])
         print('encode_bridged_message(routing=%s, header=%s, seq=%d, payload=%s)' % (
             routing, dict(zip(FIELDS, hdr)), seq, case['data']))
-        real = real_bridge(routing, hdr, seq, payload, case.get('as_string', False))
+        nth = case.get('nth', 0)
+        if nth:
+            print('  as request number %d through the same Target object' % (nth + 1))
+        real = real_bridge(routing, hdr, seq, payload, case.get('as_string', False), nth)
         print('  code : %s' % real)
         if real.startswith('ok '):
             print('  chain of %d specification bridges: %s' % (len(routing) - 1, drv.ask('peel %d %s' % (len(routing) - 1, real[3:]))))
-        judge_bridge(c2, drv, routing, hdr, seq, payload, None, case.get('as_string', False))
+        judge_bridge(c2, drv, routing, hdr, seq, payload, None, case.get('as_string', False), nth)
     elif op == 'send':
         a, b, c, s, t = case['args']
         p = lean.unhex(case['data'])
